@@ -40,7 +40,7 @@ man = dict(
                   kind_free_text="Go test binary (race detector on, testing/synctest bubbles) with recording doubles at every library boundary; "
                                  "driven by drv/verifdrv.py (sharding, crash attribution, race-log parsing, known findings, evidence)")],
     checks=checks,
-    notes="All checks are runtime monitors over executions of the real code (see DESIGN.md). Exit 2 = inconclusive (never on the unchanged tree). 15 genuine defects were found and repaired in /repo (fix: commits; known_findings.json lists them as fixed, nothing is suppressed). 118 seeded changes written by sub-agents are under seeded/, with the results of running the checks against them in seeded/RESULTS.txt.",
+    notes="All checks are runtime monitors over executions of the real code (see DESIGN.md). Exit 2 = inconclusive (never on the unchanged tree). 15 genuine defects were found and repaired in /repo (fix: commits; known_findings.json lists them as fixed, nothing is suppressed). 128 seeded changes written by sub-agents are under seeded/, with the results of running the checks against them in seeded/RESULTS.txt.",
     not_applicable=na,
 )
 json.dump(man, open(os.path.join(VERIF, "MANIFEST.json"), "w"), indent=1)
